@@ -242,20 +242,61 @@ class DimSystem:
         return (not a.t and not b.t and all(x == self.zero for x in a.c)
                 and all(x == self.zero for x in b.c))
 
-    def blame(self):
+    def _mask(self, lin, keep):
+        return Lin(tuple(x if i in keep else self.zero for i, x in enumerate(lin.c)), lin.t)
+
+    def no_carrier(self):
+        """Units that no input can carry.  For a base unit U that appears in no
+        non-output constraint (no point/time/prescribed dimension mentions it:
+        typically mass and temperature), solve the non-output constraints in
+        their U-component (homogeneous, hence consistent) and look at every
+        output anchor: if the field's U-exponent is then forced (no unknown
+        left) to a value other than the required one, no assignment of
+        dimensions to the inputs can make the field follow a change of that
+        unit.  Returns [(field_what, node, unit, have, want)] and the set of
+        unit indices to drop from blame()."""
+        out, drop = [], set()
+        if not self.inconsistencies:
+            return out, drop
+        nonout = [e for e in self.log if e[0] != 0]
+        outs = [e for e in self.log if e[0] == 0]
+        for ui, u in enumerate(self.units):
+            if any((e[2].c[ui] != self.zero) or (e[3].c[ui] != self.zero) for e in nonout):
+                continue
+            saved = (self.subst, self.inconsistencies)
+            self.subst, self.inconsistencies = {}, []
+            try:
+                keep = {ui}
+                for prio, seq, a, b, node, what in nonout:
+                    self._solve(self._mask(a, keep), self._mask(b, keep), node, what, record=False)
+                for prio, seq, a, b, node, what in outs:
+                    ra = self.resolve(self._mask(a, keep))
+                    rb = self.resolve(self._mask(b, keep))
+                    if not ra.t and not rb.t and ra.c[ui] != rb.c[ui]:
+                        out.append((what, node, u, ra.c[ui], rb.c[ui]))
+                        drop.add(ui)
+            finally:
+                self.subst, self.inconsistencies = saved
+        return out, drop
+
+    def blame(self, drop=()):
         """Re-solve the logged constraints by *anchored propagation* so that an
         inconsistency is reported at the construct that disagrees with what the
         anchors (points, time, output fields) imply, rather than wherever
         elimination happened to notice it: repeatedly take, in program order,
         every constraint with at most one unknown left (a check or a definite
         binding); when none is left take the earliest remaining one.  The
-        verdict (consistent or not) is order-independent."""
+        verdict (consistent or not) is order-independent.  Units in `drop`
+        (reported separately by no_carrier) are projected out."""
         if not self.inconsistencies:
             return []
+        keep = set(range(self.nu)) - set(drop)
         saved = (self.subst, self.inconsistencies)
         self.subst, self.inconsistencies = {}, []
         try:
             pending = sorted(self.log, key=lambda e: (e[0], e[1]))
+            if drop:
+                pending = [(p, q, self._mask(a, keep), self._mask(b, keep), n, w) for p, q, a, b, n, w in pending]
             while pending:
                 progress = True
                 while progress and pending:
